@@ -24,7 +24,7 @@ struct FaultRun {
     pairs: Vec<(String, CallKind)>,
 }
 
-fn run_one(cfg: &WorldCfg, ops: &[Op], plan: FaultPlan) -> FaultRun {
+fn run_one(cfg: &WorldCfg, ops: &[Op], plan: FaultPlan, tail: u64) -> FaultRun {
     let mut w = World::new(cfg.clone());
     w.check_screen = false;
     w.spy.state().snap_on_flush = false;
@@ -36,6 +36,29 @@ fn run_one(cfg: &WorldCfg, ops: &[Op], plan: FaultPlan) -> FaultRun {
         // with the screen oracles off the only failure World reports is a panic
         let name = ops.get(f.op_index).map(|o| o.name()).unwrap_or("?").to_string();
         bad = Some(("panic-on-io-error", f.detail.clone(), name));
+    }
+    // ---- tail: a live bar changes its terminal while the old one may be failing ------------------------
+    // (set_draw_target / adding a member to another or the same MultiProgress erase the bar from the old
+    // terminal first; the logical state is untouched by any of them)
+    let spy2 = crate::spy::SpyTerm::new(cfg.width, cfg.height, false);
+    let mp2 = indicatif::MultiProgress::with_draw_target(indicatif::ProgressDrawTarget::term_like(spy2.boxed()));
+    if bad.is_none() && tail > 0 {
+        let mp = w.mp.clone();
+        for b in w.bars.iter().flatten() {
+            let Some(h) = b.handles.first() else { continue };
+            let (name, f): (&str, Box<dyn Fn()>) = match tail {
+                1 => ("set_draw_target", Box::new(|| h.set_draw_target(indicatif::ProgressDrawTarget::term_like(spy2.boxed())))),
+                2 => ("add-to-second-MultiProgress", Box::new(|| drop(mp2.add(h.clone())))),
+                _ => match &mp {
+                    Some(mp) => ("re-add-to-own-MultiProgress", Box::new(move || drop(mp.add(h.clone())))),
+                    None => ("set_draw_target", Box::new(|| h.set_draw_target(indicatif::ProgressDrawTarget::term_like(spy2.boxed())))),
+                },
+            };
+            if let Err(p) = catch_unwind(AssertUnwindSafe(f)) {
+                bad = Some(("panic-on-io-error", format!("{name} on B{} panicked: {}", b.m.id, crate::world::panic_message(&p)), name.to_string()));
+            }
+            break; // one bar changes its terminal
+        }
     }
     // io::Result-returning calls must report an error that happened inside them
     if bad.is_none() {
@@ -167,12 +190,15 @@ fn run_case(seed: u64, idx: u64) -> CaseOut {
     // half of the MultiProgress worlds overwrite frames in place (a different sequence of terminal calls)
     cfg.move_cursor = multi && rng.chance(1, 2);
     let replay = format!("{seed}:{idx}");
-    let base = run_one(&cfg, &ops, FaultPlan::default());
+    // a third of the histories end with a live bar changing its terminal
+    let tail = if rng.chance(1, 3) { rng.range(1, 3) } else { 0 };
+    let base = run_one(&cfg, &ops, FaultPlan::default(), tail);
     let mut co = CaseOut::held(fnv1a(format!("{cfg:?}{ops:?}").as_bytes()), base.calls >= 4);
     let w = |k: u64, later: bool| {
         J::obj()
             .with("terminal", format!("{}x{} multi={} move_cursor={}", cfg.width, cfg.height, cfg.multi, cfg.move_cursor))
             .with("ops", J::Arr(ops.iter().map(|o| o.to_json()).collect()))
+            .with("tail", ["none", "set_draw_target", "add to a second MultiProgress", "re-add to its own MultiProgress"][tail as usize])
             .with("fail_call", k)
             .with("and_all_later", later)
     };
@@ -188,7 +214,7 @@ fn run_case(seed: u64, idx: u64) -> CaseOut {
     let mut injected = 0u64;
     for k in ks {
         for later in [false, true] {
-            let r = run_one(&cfg, &ops, FaultPlan { fail_at: k, and_later: later });
+            let r = run_one(&cfg, &ops, FaultPlan { fail_at: k, and_later: later }, tail);
             points += 1;
             injected += r.faults;
             for (op, call) in &r.pairs {
@@ -225,7 +251,7 @@ pub fn run(cfg: &RunCfg) -> PropResult {
     };
     PropResult {
         report,
-        rule: "each evaluation: one base history (3-14 generated operations plus the revealing suffix: ticks, position/length updates, texts with tabs, set_tab_width, println, suspend, finish*/abandon*, drop, and for MultiProgress worlds add/insert/remove/mp.println/mp.clear/mp.suspend, half of them with set_move_cursor(true)) is run fault-free to count its n terminal calls and then re-run 2n times: for EVERY k in 1..=n once with only call k failing and once with call k and all later calls failing (exhaustive in k up to 400 calls); after each faulty run a probe battery (10 calls per bar, 3 on the MultiProgress, then drop) must not panic, io::Result-returning calls must have reported the error, getters must equal the fault-free model; non-trivial = the history makes at least 4 terminal calls".into(),
+        rule: "each evaluation: one base history (3-14 generated operations plus the revealing suffix: ticks, position/length updates, texts with tabs, set_tab_width, println, suspend, finish*/abandon*, drop, and for MultiProgress worlds add/insert/remove/mp.println/mp.clear/mp.suspend, half of them with set_move_cursor(true); a third of the histories end with a live bar changing its terminal: set_draw_target, add to a second MultiProgress, re-add to its own) is run fault-free to count its n terminal calls and then re-run 2n times: for EVERY k in 1..=n once with only call k failing and once with call k and all later calls failing (exhaustive in k up to 400 calls); after each faulty run a probe battery (10 calls per bar, 3 on the MultiProgress, then drop) must not panic, io::Result-returning calls must have reported the error, getters must equal the fault-free model; non-trivial = the history makes at least 4 terminal calls".into(),
         exhaustive: false,
     }
 }
